@@ -477,6 +477,32 @@ class Engine:
         self._note_orphans("failed-commit")
         self._sync(expect_new=None, expect_removed=set(), op="failed_commit")
 
+    def op_append_twins(self, s):
+        """Pre-built parquet files registered with append_data([DataFile, ...]): two files with the SAME base name in two
+        directories (data/p=a/part-N.parquet, data/p=b/part-N.parquet), as a partitioned writer produces them. They are
+        different files: deleting one later must leave the other alone."""
+        import pyarrow as pa
+        import pyarrow.parquet as pq
+        from datashard import DataFile, FileFormat
+
+        if self.open_txns:
+            return
+        n = getattr(self, "twin_no", 0)
+        self.twin_no = n + 1
+        dfs, rows_all = [], []
+        sch = pa.schema([pa.field("k", pa.int64()), pa.field("s", pa.string())])
+        for part in ("a", "b"):
+            rows = self.rows(1)
+            rel = f"data/p={part}/part-{n:05d}.parquet"
+            path = os.path.join(self.root, rel)
+            os.makedirs(os.path.dirname(path), exist_ok=True)
+            pq.write_table(pa.Table.from_pylist(rows, schema=sch), path)
+            dfs.append(DataFile(file_path="/" + rel, file_format=FileFormat.PARQUET, partition_values={}, record_count=1, file_size_in_bytes=os.path.getsize(path)))
+            rows_all += rows
+        self._guard("append_twins", lambda: self.t.append_data(dfs))
+        self.labels["same-basename-files"] += 1
+        self._sync(expect_new={"files": self.cur_files(), "n_new": 2, "rows": self.cur_rows() + rows_multiset(rows_all)}, op="append_twins")
+
     def op_reappend_file(self, s):
         """A data file that the current snapshot already lists is appended AGAIN (an ingestion re-run handing in the same
         DataFile): the library accepts it and lists the path in a second manifest; readers count a path once. Model: a new
@@ -736,6 +762,7 @@ def step_strategy(gc=True, clock_ticks="forward", props_ops=True, open_txn=True)
         (1, st.just({"op": "reopen"})),
         (2, st.builds(lambda n: {"op": "racing_append", "n": n}, st.integers(1, 2))),
         (1, st.builds(lambda i: {"op": "reappend_file", "pick": i}, st.integers(0, 8))),
+        (1, st.just({"op": "append_twins"})),
     ]
     if ticks is not None:
         ss.append((3, st.builds(lambda ms: {"op": "tick", "ms": ms}, ticks)))
@@ -768,6 +795,7 @@ def _macros(gc=True):
          {"op": "delete_snapshot", "which": 0}, {"op": "delete_snapshot", "which": 0}] + tail + [{"op": "append", "n": 1}],
         [{"op": "append", "n": 1}, {"op": "txn", "appends": [1, 1], "delete": [0], "expire": ("future", 0)}] + tail,
         [{"op": "append", "n": 1}, {"op": "reappend_file", "pick": 0}, {"op": "append", "n": 1}, {"op": "delete_files", "pick": [0], "slash": False, "ghost": False}] + tail,
+        [{"op": "append_twins"}, {"op": "append", "n": 1}, {"op": "delete_files", "pick": [0], "slash": True, "ghost": False}] + tail,
     ] + ([[{"op": "append_markers_left", "n": 1}, {"op": "append", "n": 1}, {"op": "age", "s": 90000}, {"op": "gc", "grace_ms": 3600000}, {"op": "append", "n": 1}]] if gc else []))
 
 
